@@ -98,6 +98,7 @@ func ledgerStrata() []stratum {
 			// long flat lists: more than 32 funded draws in one statement, accounts repeated
 			c.Accounts = manyAccountsL(40)
 			c.Assets = []string{"USD"}
+			c.PLongSrc, c.PFunded = 50, 80
 			c.Depth, c.Fanout, c.MinStmts, c.MaxStmts = 1, 48, 1, 4
 			c.PSrcSeq, c.PDstSeq, c.PSrcCap, c.PSrcAllot, c.PDstAllot, c.PRepeat, c.PWorld, c.PAbsent, c.PSave = 70, 40, 10, 5, 10, 25, 2, 3, 20
 		}), 2},
@@ -111,9 +112,9 @@ func ledgerStrata() []stratum {
 		}), 2},
 		{"colons", with(func(c *gen.LCfg) {
 			// segmented names whose concatenations collide: x:y + z  ==  x + y:z
-			c.Accounts = []string{"x:y", "x", "y:z", "z", "y"}
+			c.Accounts = []string{"x:y", "x", "y:z", "z", "y", "users:001:wallet", "main"}
 			c.Assets = []string{"USD"}
-			c.PSrcSeq, c.PDstSeq, c.PWorld, c.Depth = 60, 60, 3, 2
+			c.PSrcSeq, c.PDstSeq, c.PWorld, c.Depth, c.PAligned = 60, 60, 3, 2, 40
 			c.DestWorld = false
 		}), 2},
 		{"names", with(func(c *gen.LCfg) {
